@@ -125,11 +125,11 @@ func AnalyzePool(p *load.Program, r *Roles, depth int) *UnitResult {
 		submitRecv = recv
 		wgAddr := eng.FieldAddr(recv, pf.wg)
 		tasksCh := eng.Load(eng.FieldAddr(recv, pf.tasks))
-		mon := &poolMon{name: "submit", init: func() eng.MState { return kvState{s: "adds=0,sends=0"} }}
+		mon := &poolMon{name: "submit", init: func() eng.MState { return kvState{s: "adds=0,sends=0,held=0"} }}
 		mon.on = func(c *eng.Ctx, ms eng.MState, ev *eng.Event) eng.MState {
 			s := ms.(kvState)
-			var adds, sends int
-			fmt.Sscanf(s.s, "adds=%d,sends=%d", &adds, &sends)
+			var adds, sends, held int
+			fmt.Sscanf(s.s, "adds=%d,sends=%d,held=%d", &adds, &sends, &held)
 			con := func(role string) string { return "WorkerPool.Submit:" + role }
 			switch ev.Kind {
 			case "call":
@@ -143,9 +143,18 @@ func AnalyzePool(p *load.Program, r *Roles, depth int) *UnitResult {
 					}
 				case "wg.Done", "wg.Wait":
 					chk(c, "C12.R1", con("wg-other"), false, ev, "Submit itself calls "+ev.Class)
+				case "lock", "rlock":
+					if held < 3 {
+						held++
+					}
+				case "unlock", "runlock":
+					if held > 0 {
+						held--
+					}
 				}
 			case "send":
 				chk(c, "C12.R2", con("enqueue"), ev.Addr == tasksCh, ev, "Submit sends on "+ev.Addr.Pretty()+", not on the pool's task channel")
+				chk(c, "C12.R2,C08.R2", con("enqueue"), held == 0, ev, "Submit blocks on the queue while holding a lock: a worker (or the wrapper it runs) that needs the same lock can never drain the queue - submitted tasks are not executed and Submit / Wait never return")
 				chk(c, "C12.R1", con("enqueue"), adds == 1, ev, fmt.Sprintf("the task is enqueued after %d WaitGroup registrations (want exactly 1 before the send)", adds))
 				okv := false
 				if ev.Val.K == eng.KClosure {
@@ -187,7 +196,7 @@ func AnalyzePool(p *load.Program, r *Roles, depth int) *UnitResult {
 			case "return":
 				chk(c, "C12.R2,C09.R6", con("return"), sends == 1, ev, fmt.Sprintf("Submit returns after enqueuing the task %d times (want exactly once on every path)", sends))
 			}
-			return kvState{s: fmt.Sprintf("adds=%d,sends=%d", adds, sends)}
+			return kvState{s: fmt.Sprintf("adds=%d,sends=%d,held=%d", adds, sends, held)}
 		}
 		run(fn, nil, mon)
 	} else {
